@@ -82,7 +82,7 @@ func cmdCheck(args []string) int {
 		return 2
 	}
 	e.Findings = findings
-	timeout := 10
+	timeout := 20 // quick: per-solver budget in seconds; everything claimed discharges well under it on the unchanged tree
 	if tier == "thorough" {
 		timeout = 60
 	}
@@ -161,6 +161,9 @@ func cmdCheck(args []string) int {
 	for _, f := range findings {
 		if f.Kind == "finding" { // a finding is identified by its obligation; it is reported under every property the obligation serves
 			expectFail[f.Obligation] = true
+			if f.Region != "" {
+				expectFail["~"+normOrd(f.Obligation)] = true
+			}
 		}
 	}
 	// obligations withdrawn from the claim (/verif/unclaimed.json): not discharged, not counted, listed in the evidence
@@ -179,7 +182,7 @@ func cmdCheck(args []string) int {
 	}
 	var normal, expected []*Obligation
 	for _, o := range obls {
-		if expectFail[o.Name] && !o.Regioned {
+		if (expectFail[o.Name] || expectFail["~"+normOrd(o.Name)]) && !o.Regioned {
 			expected = append(expected, o)
 		} else {
 			normal = append(normal, o)
@@ -196,13 +199,20 @@ func cmdCheck(args []string) int {
 	for _, f := range findings {
 		if f.Kind == "finding" { // a finding is identified by its obligation; it is reported under every property the obligation serves
 			kf[f.Obligation] = append(kf[f.Obligation], f)
+			if f.Region != "" && normOrd(f.Obligation) != f.Obligation {
+				kf["~"+normOrd(f.Obligation)] = append(kf["~"+normOrd(f.Obligation)], f)
+			}
 		}
 	}
 	var waived []string
 	var knownLines []string
 	nObl := 0
 	for _, o := range obls {
-		if fs, ok := kf[o.Name]; ok && !o.Regioned {
+		fs, ok := kf[o.Name]
+		if !ok {
+			fs, ok = kf["~"+normOrd(o.Name)]
+		}
+		if ok && !o.Regioned {
 			// the listed instance itself: expected to fail; it is not part of the claimed set
 			if o.Status != "unsat" {
 				for _, f := range fs {
